@@ -56,7 +56,11 @@ package dns
 //@   exit eq: ret0 == nil ==> callres("Equal")
 //@   callsite "Equal" whole: same(arg0, b) && same(arg1, mac) && same(b, callres("Generate", 0))
 //@   callsite "DecodeString" recmac: arg0 == t.MAC
+// RFC 8945 6: each algorithm name selects its own digest (hmac-sha1, -sha224, -sha256, -sha384, -sha512)
 //@ func (tsigHMACProvider).Generate [C11]
+//@   callsite "crypto/hmac.New" digest: (callres("CanonicalName") == "hmac-sha1." ==> arg0 == funcval("crypto/sha1.New")) && (callres("CanonicalName") == "hmac-sha224." ==> arg0 == funcval("crypto/sha256.New224")) && (callres("CanonicalName") == "hmac-sha256." ==> arg0 == funcval("crypto/sha256.New")) && (callres("CanonicalName") == "hmac-sha384." ==> arg0 == funcval("crypto/sha512.New384")) && (callres("CanonicalName") == "hmac-sha512." ==> arg0 == funcval("crypto/sha512.New")) && same(arg1, rawsecret)
+//@   callsite "crypto/hmac.New" known: callres("CanonicalName") == "hmac-sha1." || callres("CanonicalName") == "hmac-sha224." || callres("CanonicalName") == "hmac-sha256." || callres("CanonicalName") == "hmac-sha384." || callres("CanonicalName") == "hmac-sha512."
+//@   callsite "CanonicalName" alg: arg0 == t.Algorithm
 //@   requires t != nil
 //@ func (tsigSecretProvider).Verify [C11]
 //@   requires t != nil
